@@ -11,10 +11,10 @@
 //!                                  parts / quadrants and tensor round trips (c09/over_mviews.rs)
 //! Every API form that constructs the same iterator is driven and cross-checked; sources are
 //! built both as statically typed view compositions and as `Box<dyn TensorMut>` chains.
-mod matrix;
-mod over_mviews;
+pub mod matrix;
+pub mod over_mviews;
 mod over_views;
-mod tsrc;
+pub mod tsrc;
 
 use crate::guarded;
 use crate::sx::*;
